@@ -76,7 +76,7 @@ def consistentPinned (C : Codecs) (c : Cmd) (env : Env) : Bool :=
   | .ok s =>
     intsFit s.env c.marshal && relationsHoldPinned C (pinnedFor c.name) s.env s.P.length 0 c.unmarshal &&
     s.P.length % 2 == 0 && wordCountOf c.isAndX s.P ≤ 255 && s.D.length ≤ 65535 &&
-    (s.P.length > 0 || s.D.length > 0 || c.fields.isEmpty) && s.head.isEmpty
+    (s.P.length > 0 || s.D.length > 0 || c.fields.isEmpty)
   | _ => false
 
 end Manticore.SmbIR
